@@ -422,16 +422,28 @@ class MutableFileNode:
 
         # It is possible that the download will fail because there
         # aren't enough shares to be had. If so, we will try again after
-        # updating the servermap in MODE_WRITE, which may find more
-        # shares than updating in MODE_READ, as we just did. We can do
-        # this by getting the best mutable version and downloading from
-        # that -- the best mutable version will be a MutableFileVersion
-        # with a servermap that was last updated in MODE_WRITE, as we
-        # want. If this fails, then we give up.
+        # updating the servermap in MODE_CHECK, which asks every server
+        # and so finds every share there is, unlike MODE_READ as we just
+        # did. (get_best_mutable_version() is no help here: without the
+        # write key it is another MODE_READ update, and with it a
+        # MODE_WRITE update, which stops at the first run of servers
+        # without shares.) If this fails, then we give up.
         def _maybe_retry(failure):
             failure.trap(NotEnoughSharesError)
 
-            d = self.get_best_mutable_version()
+            d = self._get_servermap(MODE_CHECK)
+            def _best_version(servermap):
+                v = servermap.best_recoverable_version()
+                if not v:
+                    raise UnrecoverableFileError("no recoverable versions")
+                return MutableFileVersion(self,
+                                          servermap,
+                                          v,
+                                          self._storage_index,
+                                          self._storage_broker,
+                                          self._readkey,
+                                          history=self._history)
+            d.addCallback(_best_version)
             d.addCallback(self._record_size)
             d.addCallback(lambda version: version.download_to_data())
             return d
